@@ -113,6 +113,34 @@ Theorem C02_evolve2d_plain_spec : forall (St : Type) (rule : rule2 St) (store : 
    Ok (s', hist ++ grids)).
 Proof. exact evolve2d_plain_spec. Qed.
 
+(* shape and exact call log of evolve2d: T-1 new R x C grids; the rule is consulted for t = 1 .. T-1 ascending,
+   within a step over the row-major cells (k-th = (k / C, k mod C), C02_cells_row_major), each once, on the torus
+   block, with the mask of the type, of the grid of step t-1 (grid 0 = the last grid of the given history) *)
+Theorem C02_evolve2d_call_log : forall (St : Type) (rule : rule2 St) (store : Z -> Z) R C r ty s0 lg (hist : list grid) T,
+  1 <= R -> 1 <= C -> r <= Nat.min R C -> wf_grid R C (last hist []) -> 1 <= T ->
+  exists s' grids,
+    evolve2d_plain rule store r ty s0 hist T = Ok (s', hist ++ grids) /\
+    length grids = T - 1 /\ Forall (wf_grid R C) grids /\
+    evolve2d_plain (logged2 rule) store r ty (s0, lg) hist T =
+      Ok ((s', lg ++ flat_map (fun t => map (call_of (nth (t - 1) (last hist [] :: grids) []) r ty t) (cells R C))
+                              (seq 1 (T - 1))), hist ++ grids).
+Proof. exact evolve2d_plain_logged. Qed.
+
+(* stateless rules that may read n, (row, col), t: every appended grid is the synchronous torus update of the
+   grid before it, in closed form (no reference to the model's loop) *)
+Theorem C02_evolve2d_pure_ct : forall (f : nbhd2 -> nat * nat -> nat -> Z) (store : Z -> Z) R C r ty (hist : list grid) T,
+  1 <= R -> 1 <= C -> r <= Nat.min R C -> wf_grid R C (last hist []) -> 1 <= T ->
+  exists grids,
+    evolve2d_plain (fun u n c t => (u, f n c t)) store r ty tt hist T = Ok (tt, hist ++ grids) /\
+    length grids = T - 1 /\ Forall (wf_grid R C) grids /\
+    forall t, 1 <= t < T ->
+      nth (t - 1) grids [] =
+        map (fun row => map (fun col =>
+               store (f {| nb_vals := torus_block (nth (t - 1) (last hist [] :: grids) []) row col r;
+                           nb_mask := mask_of ty r |} (row, col) t))
+             (seq 0 C)) (seq 0 R).
+Proof. exact evolve2d_plain_pure_ct. Qed.
+
 (* ... T-1 grids, each R x C *)
 Theorem C02_evolve2d_grids_shape : forall (St : Type) (rule : rule2 St) (store : Z -> Z) R C r ty s cur t n,
   length (snd (iter_steps (spec_step rule store R C r ty) n s cur t)) = n /\
@@ -196,6 +224,8 @@ Print Assumptions C02_step_plain2d_log.
 Print Assumptions C02_step_plain2d_pure.
 Print Assumptions C02_step_plain2d_pure_ct.
 Print Assumptions C02_evolve2d_plain_spec.
+Print Assumptions C02_evolve2d_call_log.
+Print Assumptions C02_evolve2d_pure_ct.
 Print Assumptions C02_evolve2d_grids_shape.
 Print Assumptions C02_evolve2d_plain_dynamic_spec.
 Print Assumptions C02_radius_guard.
